@@ -6,5 +6,8 @@ mkdir -p "$S"
 rsync -a --delete --exclude target --exclude .git "$REPO"/ "$S"/
 cp /verif/kani/verif_contracts.rs "$S"/src/instruction/bin_op/verif_contracts.rs
 printf '\n#[cfg(kani)]\nmod verif_contracts;\n' >> "$S"/src/instruction/bin_op.rs
+mkdir -p "$S"/src/instruction/slicing
+cp /verif/kani/verif_slicing.rs "$S"/src/instruction/slicing/verif_slicing.rs
+printf '\n#[cfg(kani)]\nmod verif_slicing;\n' >> "$S"/src/instruction/slicing.rs
 mkdir -p "$S"/.cargo
 printf '[net]\noffline = true\n' > "$S"/.cargo/config.toml
